@@ -7,10 +7,12 @@
 #ifndef JSONCONS_UTILITY_WRITE_NUMBER_HPP
 #define JSONCONS_UTILITY_WRITE_NUMBER_HPP
 
+#include <algorithm> // std::max
 #include <clocale>
 #include <cmath>
 #include <cstddef>
 #include <cstdint>
+#include <cstdlib> // std::atoi
 #include <limits> // std::numeric_limits
 #include <locale>
 #include <stdexcept>
@@ -407,8 +409,26 @@ bool dtoa_fixed(double val, char decimal_point, Result& result, std::false_type)
         return true;
     }
 
-    char buffer[400]; // "%.17f" of 1.8e308 needs 309 + 1 + 17 characters
-    int precision = std::numeric_limits<double>::digits10;
+    // Number of decimals that gives the wanted number of significant digits,
+    // the decimal exponent of val is taken from its scientific representation
+    auto decimals = [val](int digits) -> int
+    {
+        char e[48];
+        int n = snprintf(e, sizeof(e), "%1.*e", digits - 1, val);
+        int e10 = 0;
+        for (int i = 0; i < n; ++i)
+        {
+            if (e[i] == 'e')
+            {
+                e10 = std::atoi(e + i + 1);
+                break;
+            }
+        }
+        return (std::max)(digits - 1 - e10, 0);
+    };
+
+    char buffer[400]; // 5e-324 needs 2 + 324 + 16 characters, 1.8e308 needs 309
+    int precision = decimals(std::numeric_limits<double>::digits10);
     int length = snprintf(buffer, sizeof(buffer), "%1.*f", precision, val);
     if (length < 0)
     {
@@ -422,7 +442,7 @@ bool dtoa_fixed(double val, char decimal_point, Result& result, std::false_type)
     }
     if (x != val)
     {
-        const int precision2 = std::numeric_limits<double>::max_digits10;
+        const int precision2 = decimals(std::numeric_limits<double>::max_digits10);
         length = snprintf(buffer, sizeof(buffer), "%1.*f", precision2, val);
         if (length < 0)
         {
